@@ -160,6 +160,14 @@ def check_problem(spec, calls, counters, violations):
             elif k == "tag":
                 opt.tag(call[1])
                 tag_rows[call[1]] = len(opt._log["penalty"]) - 1
+            elif k == "enable" and call[2] % 11 == 0:
+                # enable(vary=True) / enable(target=True): everything of that kind active again
+                what = call[1]
+                opt.enable(**{what: True})
+                fl = S.flags()
+                counters["flag_changes_checked"] = counters.get("flag_changes_checked", 0) + 1
+                if not all(fl[0 if what == "vary" else 1]):
+                    issues.append("enable(%s=True) left the active flags at %s" % (what, fl))
             elif k in ("disable", "enable"):
                 what, idx = call[1], call[2]
                 lst = S.targets if what == "target" else S.vary
